@@ -393,11 +393,20 @@ pub fn c02(tier: &str) -> Vec<Family> {
     }
     // Broadcast whose delivery to B is suspended on a full mailbox while a
     // third party (E) competes for the freed slot; then the triangle.
-    for capb in [1usize, 2] {
+    for (capb, vname, out0) in [
+        (1usize, "", vec![to(1), to(3)]),
+        (2, "", vec![to(1), to(3)]),
+        // The edge to B through a mapped connection (alone, and next to another connection) and
+        // through filtered connections of which exactly one accepts each message.
+        (1, "/map", vec![tom(1, Mode::Map(1000))]),
+        (1, "/map+plain", vec![tom(1, Mode::Map(1000)), to(3)]),
+        (1, "/filters", vec![tom(1, Mode::Filter(0)), tom(3, Mode::Filter(1))]),
+        (2, "/filters", vec![tom(3, Mode::Filter(1)), tom(1, Mode::Filter(0))]),
+    ] {
         let a = NodeSpec::new("A", 2)
             .script(1, vec![sendp(0, 2, 10), sendp(1, 3, 20)])
             .script(5, vec![sendp(0, 2, 1), sendp(0, 2, 2), sendp(1, 3, 20)])
-            .out(vec![to(1), to(3)])
+            .out(out0)
             .out(vec![to(2)]);
         let b = NodeSpec::new("B", capb);
         let c = NodeSpec::new("C", 1).script(3, vec![sendp(0, 2, 30)]).out(vec![to(1)]);
@@ -406,7 +415,7 @@ pub fn c02(tier: &str) -> Vec<Family> {
         let spec = Arc::new(BenchSpec::new(vec![a, b, c, d, e]));
         for tag in [1u16, 5] {
             sc.push(scn(
-                format!("bcast_triangle/capB{}/tag{}", capb, tag),
+                format!("bcast_triangle/capB{}{}/tag{}", capb, vname, tag),
                 &spec,
                 vec![
                     Cmd::Sched { node: 4, kind: SKind::Once, when: When::Rel(1), tag: 1, val: 0, slot: 0 },
